@@ -15,6 +15,7 @@ import (
 // RawClient is the adversary's own client: it sends arbitrary bodies with any
 // token to a node and sees the raw answer.
 type RawClient struct {
+	HangUp   bool // disconnect as soon as the server starts to answer
 	Net      *Net
 	From, To string
 	Token    string // Authorization header value sent with the next request
@@ -26,7 +27,7 @@ type RawClient struct {
 func (c *RawClient) Send(msgType uint8, body []byte) (respType int, resp []byte, err error) {
 	c.Sent++
 	ev := &NetEvent{From: c.From, To: c.To, Phase: "req", MsgType: msgType, Token: c.Token, Body: body, OrigBody: body,
-		ContentType: "application/cbor", Session: "adversary", Adversary: true}
+		ContentType: "application/cbor", Session: "adversary", Adversary: true, HangUp: c.HangUp}
 	ev.Fault("inject")
 	r, err := c.Net.Deliver(ev)
 	if err != nil {
